@@ -3,7 +3,7 @@ from checks.enginelib import *
 from checks import batchlib
 
 META = {
-    "text": "Lean: component model Chain (commit = allocate tx id + chain + append in one step; batches; Init after a crash); theorems chain_ok (ids are positions, every hash digests its predecessor's hash and its own content, transaction ids 0,1,2… in log order, for the durable log and what is queued), chain_ok_durable, chain_after_crash. Tie: trace validation incl. the log content and an independent re-computation of every hash; oracle on what InsertLogs received across restarts. Stage 2, the component between commit and the store (batching.Batcher + job.Runner, one worker): Lean model Batcher (Model/Batcher.lean), theorems for every operation sequence, every maxBatchSize >= 1, unbounded queues: batches_concat_is_appended_prefix + every_batch_boundary_is_a_prefix (what the runner function is handed, batch after batch, is a prefix of what was appended: nothing twice, nothing skipped, order kept), batch_size_bounded, no_item_lost_while_alive, every_item_eventually_persisted. Tie: area batcher — seeded operation sequences (append / the parked runner call returns nil / returns an error / Close / Run) on the real Batcher[int] with maxBatchSize in {1,2,3,5}, compared step by step with the model (stream batcher:model-vs-real); oracle on the implementation's record alone: batch-boundary, batch-size, batch-aliased.",
+    "text": "Lean: component model Chain (commit = allocate tx id + chain + append in one step; batches; Init after a crash); theorems chain_ok (ids are positions, every hash digests its predecessor's hash and its own content, transaction ids 0,1,2… in log order, for the durable log and what is queued), chain_ok_durable, chain_after_crash. Tie: trace validation incl. the log content and an independent re-computation of every hash; oracle on what InsertLogs received across restarts. Stage 2, the component between commit and the store (batching.Batcher + job.Runner, one worker): Lean model Batcher (Model/Batcher.lean), theorems for every operation sequence, every maxBatchSize >= 1, unbounded queues: batches_concat_is_appended_prefix + every_batch_boundary_is_a_prefix (what the runner function is handed, batch after batch, is a prefix of what was appended: nothing twice, nothing skipped, order kept), batch_size_bounded, no_item_lost_while_alive, every_item_eventually_persisted; a graceful stop waits for the write in flight: close_waits_for_inflight (Close has returned only when no runner call is in flight and the loop has ended), close_blocks_while_call_in_flight, close_returns_with_the_call, nothing_reaches_the_store_after_close. Tie: area batcher — seeded operation sequences (append / the parked runner call returns nil / returns an error / Close / Run) on the real Batcher[int] with maxBatchSize in {1,2,3,5}, compared step by step with the model (stream batcher:model-vs-real); oracle on the implementation's record alone: batch-boundary, batch-size, batch-aliased, close-returned-while-call-in-flight. Engine runs: a graceful stop (Commander.Close in a goroutine while a batch is inside InsertLogs, the order of its return and of the store's answer recorded) followed by a new commander on the same store and further writes; oracle close-returned-while-insert-in-flight next to ids / chain / transaction ids of what the store received.",
     "note": 'Trusted: Lean kernel; event extraction; SHA-256/JSON of the hash are recomputed by the harness (their Lean model lives under C13), the model carries the verdict as a checked flag. Component stage: the batcher harness (gate in the runner function, quiescence from the events an operation must cause, overlay exports VerifPendingLen / VerifUnpark, goroutine state of a waiting Close); one worker; interleavings inside one operation are not explored.',
     "technique": 'Lean 4 proof (inductive invariant of the Chain component) + trace validation + chain oracle; Lean 4 proof (inductive invariant of the Batcher / job.Runner component) + operation-sequence differential on the real component + batch-boundary oracle + regenerated commander skeleton (extract/commander -> Generated/Commander.lean on every run): well-formedness of every control path by decide, refinement of this component by the interpreted skeleton under every schedule, observed runs re-executed in the skeleton system',
     "design_ref": '5 (C05), 0a (The batcher and the job runner)',
